@@ -298,3 +298,11 @@ func runRateCase(c *Case) string {
 	}
 	return lib.App("CRate", lib.List(ts), lib.List(pm))
 }
+
+func runTrafficCase(c *Case) string {
+	nv := make([]string, len(c.Never))
+	for i, b := range c.Never {
+		nv[i] = lib.Bool(b)
+	}
+	return lib.App("CTraffic", lib.N(uint64(c.D)), lib.List(nv))
+}
